@@ -45,7 +45,9 @@ type Case struct {
 	FilterAnnRe  string `json:"filterAnnRe,omitempty"` // "" with key set = nil regex
 	FilterOrder  int    `json:"filterOrder,omitempty"` // 0: AT then Ann, 1: Ann then AT
 	// callbacks
-	Callbacks bool   `json:"callbacks,omitempty"`
+	Callbacks bool `json:"callbacks,omitempty"`
+	// PreCancel: the context is already cancelled when the call is made.
+	PreCancel bool   `json:"preCancel,omitempty"`
 	TarFmt    string `json:"tarFmt,omitempty"`
 }
 
@@ -215,6 +217,9 @@ func (e *Env) Invoke(faults bool) Outcome {
 	defer cancel()
 	if faults {
 		e.Rec.Cancel = cancel
+		if e.C.PreCancel {
+			cancel()
+		}
 	} else {
 		e.Rec.Faults = nil
 	}
